@@ -16,7 +16,9 @@ vars == <<case, res>>
 N(k) == NumLit(NatToCodes(k))
 Spy(k) == CallN("SPY", <<N(k)>>)
 A1 == RelRef(1, 1)  B1 == RelRef(2, 1)  C1 == RelRef(3, 1)  D1 == RelRef(4, 1)  E1 == RelRef(5, 1)
-Poison == << CallN("NOSUCHFUNC", <<>>), RelRef(CycCol, 1), Bin("/", N(1), N(0)) >>
+\* (the formula under test lives in Z1: a reference to Z1, or a range containing it, is a circular reference as well)
+Poison == << CallN("NOSUCHFUNC", <<>>), RelRef(CycCol, 1), Bin("/", N(1), N(0)),
+            Bin("+", RelRef(OwnCol, 1), N(1)), CallN("SUM", <<Rng("", OwnCol - 1, 1, OwnCol, 1)>>) >>
 
 \* assignments to A1..D1
 Assign == << <<Bool(TRUE), Bool(FALSE), Whole(0), Whole(2)>>,
@@ -70,7 +72,7 @@ LawIfPoisonIgnored == (Done /\ case.kind = "if-poison") =>
     LET c == Eval(case.ast.args[1], "Sheet1", WbOfA(Assign[case.asg])) IN
     \A o \in res : (Truth(c) \in {"t", "f"} /\ case.ast.args[1].k # "call")
         => LET sel == IF Truth(c) = "t" THEN case.ast.args[2] ELSE case.ast.args[3]
-               poisonSel == sel = Poison[1] \/ sel = Poison[2] \/ sel = Poison[3]
+               poisonSel == \E p \in 1..Len(Poison) : sel = Poison[p]
            IN ~poisonSel => (o.v # Exc /\ o.v # Err("#DIV/0!"))
 \* De Morgan on error-free, fully determined arguments: NOT(AND(a,b)) = OR(NOT a, NOT b) at the level of values
 LawJunctionValues == (Done /\ case.kind \in {"junc1", "junc2", "junc3"}) =>
